@@ -26,7 +26,7 @@ from common import short
 from gen import pycore as P
 from props import c02_flow
 
-MODELS = ['PyCore', 'ArgBind']
+MODELS = ['PyCore', 'ArgBind', 'FlowCache']
 LEAN_TARGETS = ['JediModel.Props.C02', 'JediModel.Drivers.C02']
 MANIFEST = dict(
     text='Theorem may_sound_partial over Model/PyCore: for every program of the pure core (literals, names, tuples, '
